@@ -2,6 +2,9 @@
 + parser state-restore invariant)."""
 from tv import pegdiff as P
 from tv import refpeg as RP
+from tv.hooks import install_parse_state
+
+PS = None
 
 ID = 'C01'
 LEVEL = 'exploration'
@@ -28,7 +31,12 @@ def classify(case):
 
 def gen(ctx, i):
     r = ctx.rng('g', i)
-    gen_ = RP_G(r)
+    if i % 3 == 2:
+        # modifier-heavy profile: rule modifiers on every second rule incl. single-match bodies
+        from tv.ggen import G
+        gen_ = G(r, 0.0, pskip=0.4, pws=0.25, pcomment=0.3)
+    else:
+        gen_ = RP_G(r)
     g = gen_.grammar()
     return r, gen_, g
 
@@ -40,6 +48,8 @@ def RP_G(r):
 
 def one(ctx, i, rep=None):
     from textx import metamodel_from_str, TextXError
+    global PS
+    PS = install_parse_state()
     r, gen_, g = gen(ctx, i)
     rep = rep or {'i': i}
     text = RP.pr_grammar(g)
@@ -71,9 +81,16 @@ def one(ctx, i, rep=None):
         if ref[0] == 'budget':
             ctx.count('reference_budget_exceeded')
             continue
-        before = (parser.skipws, parser.ws, parser.eolterm)
+        sr0 = PS.stripped_restores
         got = P.textx_outcome(mm, s)
         ctx.count('restore_invariant_checked')
+        st = PS.last()
+        stripped = PS.stripped_restores - sr0
+        if st is not None and not st['restored']:
+            b, a = st['before'], st['after']
+            key = 'eolterm-ws-restore' if (stripped and b[1:] == a[1:] and a[0] == b[0].replace('\n', '').replace('\r', '')) else None
+            ctx.violation(key, 'parser whitespace state not restored after parse: %r -> %r' % (b, a),
+                          {'grammar': text, 'input': s, 'config': cfg}, rep)
         nontriv = False
         if ref[0] == 'ok':
             o, l = P.count_objs(ref[1])
@@ -86,7 +103,7 @@ def one(ctx, i, rep=None):
             continue
         case = {'grammar': text, 'input': s, 'config': cfg, 'reference': repr(ref)[:1500], 'textx': repr(got)[:1500],
                 'features': sorted(feats | gen_.used_features)}
-        key = classify_div(g, s, cfg, ref, got, feats | gen_.used_features)
+        key = classify_div(g, s, cfg, ref, got, feats | gen_.used_features, stripped)
         ctx.violation(key, 'reference %s / textX %s on input %r (cfg %s)' % (ref[0], got[0], s[:60], cfg), case, rep)
 
 
@@ -94,12 +111,27 @@ def classify_grammar(g, e):
     return None
 
 
-def classify_div(g, s, cfg, ref, got, feats):
+EMULATIONS = [('dangling-separator',), ('abstract-all-match:first-nonterminal',),
+              ('dangling-separator', 'abstract-all-match:first-nonterminal')]
+
+
+def classify_div(g, s, cfg, ref, got, feats, stripped_restores=0):
+    """Attribute a divergence to a recorded mechanism only if reproducing that mechanism in the reference
+    interpreter gives exactly textX's outcome, or if the monitor saw the Arpeggio state corruption."""
+    g2 = ('reject',) if got[0] == 'reject' else got
+    for emu in EMULATIONS:
+        r2, _ = P.ref_outcome(g, s, cfg, emulate=emu)
+        if r2 == g2:
+            return {'dangling-separator': 'dangling-separator',
+                    'abstract-all-match:first-nonterminal': 'abstract-all-match-alternative'}[emu[0]] if len(emu) == 1 \
+                else 'dangling-separator'
+    if stripped_restores:
+        return 'eolterm-ws-restore'
     return None
 
 
 def run(ctx):
-    n = 400 if ctx.tier == 'quick' else 10000
+    n = 1500 if ctx.tier == "quick" else 20000
     for i in ctx.indices(n, 'random'):
         one(ctx, i)
 
